@@ -35,13 +35,38 @@ func init() {
 			e := findValue(dnsUtilDir, n)
 			f.defN(strings.ToLower(n[:1])+n[1:], evalInt(dnsUtilDir, e), pos(e))
 		}
+		// Dotify: the one block length it cuts by - the loop bound and every slice bound must evaluate to the same number (written as a
+		// literal or as a named constant)
 		d := findFunc(dnsUtilDir, "", "Dotify")
-		lits := intLiteralsIn(d)
-		if len(lits) != 1 {
-			die("Dotify: expected exactly one integer constant, found %v", lits)
+		var vals []*big.Int
+		ast.Inspect(d.Body, func(n ast.Node) bool {
+			switch x := n.(type) {
+			case *ast.BinaryExpr:
+				if x.Op == token.GTR || x.Op == token.GEQ || x.Op == token.LSS || x.Op == token.LEQ {
+					for _, side := range []ast.Expr{x.X, x.Y} {
+						if _, isCall := side.(*ast.CallExpr); !isCall {
+							vals = append(vals, evalInt(dnsUtilDir, side))
+						}
+					}
+				}
+			case *ast.SliceExpr:
+				for _, b := range []ast.Expr{x.Low, x.High} {
+					if b != nil && exprText(b) != "0" {
+						vals = append(vals, evalInt(dnsUtilDir, b))
+					}
+				}
+			}
+			return true
+		})
+		if len(vals) == 0 {
+			die("Dotify: no block length found")
 		}
-		v, _ := new(big.Int).SetString(lits[0], 0)
-		f.defN("dotify_every", v, pos(d))
+		for _, x := range vals {
+			if x.Cmp(vals[0]) != 0 {
+				die("Dotify: expected one block length, found %v", vals)
+			}
+		}
+		f.defN("dotify_every", vals[0], pos(d))
 		// per-record payload sizes in wrap.go: the literal N in `len(data) > N` of each splitter
 		for _, w := range []struct{ fn, name string }{{"WrapDnsResponseA", "chunk_a"}, {"WrapDnsResponseAAAA", "chunk_aaaa"},
 			{"WrapDnsResponseTxt", "chunk_txt"}, {"WrapDnsResponseNull", "chunk_null"}, {"WrapDnsResponsePrivate", "chunk_private"}} {
